@@ -174,6 +174,40 @@ def rule_R2(ctx, f):
                 if (from_lookup(x) and is_dim(y)) or (from_lookup(y) and is_dim(x)):
                     bad = be[1] if be[0][1] == "Ne" else be[2]
                     okb = rejecting(b, bad) and on_every_iteration(g.bb)
+        if not okb:
+            # `known.is_some_and(|hash| hash != desc.dim_hash)` with `known` coming from the lookup
+            def from_lookup_deep(t, depth=0):
+                for s_ in subterms(t):
+                    if isinstance(s_, tuple) and len(s_) == 4 and s_[0] == "call" and s_[3] == g.bb:
+                        return True
+                    if isinstance(s_, tuple) and len(s_) == 2 and s_[0] == "var" and depth < 3 and any(from_lookup_deep(a_, depth + 1) for a_ in b.var_alts(s_[1])):
+                        return True
+                return False
+            for c in b.calls_to(["Option::is_some_and", "Option::map_or", "Option::is_none_or"]):
+                a = c.args[-1]
+                cl = f.closure(a[2]) if (isinstance(a, tuple) and a and a[0] == "agg" and a[1] == "closure") else None
+                be = b.bool_edges(c.target) if c.target is not None else None
+                if cl is None or not be or be[0] != c.result_term() or not from_lookup_deep(c.args[0]):
+                    continue
+                r = cl.term_local(0)
+                if isinstance(r, tuple) and r[0] == "binop" and r[1] in ("Ne", "Eq"):
+                    sides = [peel(r[2]), peel(r[3])]
+                    arg_side = [x for x in sides if x == ("param", 2)]
+                    def subst(t):
+                        """the closure's captured variables replaced by what was captured in register"""
+                        if isinstance(t, tuple) and len(t) == 3 and t[0] == "field" and str(t[2]).isdigit() and peel(t[1]) == ("param", 1) and int(t[2]) < len(a[3]):
+                            return a[3][int(t[2])]
+                        if isinstance(t, tuple):
+                            return tuple(subst(u) if isinstance(u, tuple) else u for u in t)
+                        return t
+                    cap_side = [x for x in (r[2], r[3]) if peel(x) != ("param", 2) and _desc_elem(b, subst(x)) == "dim_hash"]
+                    if len(arg_side) == 1 and len(cap_side) == 1:
+                        mismatch_true = (r[1] == "Ne") == c.matches("Option::is_some_and")
+                        bad = be[1] if (c.matches("Option::is_some_and") and r[1] == "Ne") else None
+                        if c.matches("Option::is_none_or") and r[1] == "Eq":
+                            bad = be[2]
+                        if bad is not None:
+                            okb = rejecting(b, bad) and on_every_iteration(g.bb)
         # same-call names: either the lookup falls back to the local map, or the local map does not exist (direct writes are R1's concern)
         local_ins = [c for c in b.calls_to("HashMap::insert") if _desc_elem(b, c.args[1]) == "fq_name" and self_field_of(c.args[0]) is None]
         if local_ins:
